@@ -30,8 +30,10 @@ ASSUMPTIONS = common.BASE_ASSUMPTIONS + [
     "the uncut reference run is executed on the same transport kind; if it raises or overruns its step budget the wire is skipped (C08's business)",
 ]
 REAL_VS_STUB = common.REAL_VS_STUB
-QUICK_RUNS = 2600
+QUICK_RUNS = 2200
 FULL_ENUM_MAX = 400
+O_SLICE_UNITS = 30
+HEAVY_WIRE = 30_000  # loop iterations of one uncut run above which the cut points are thinned out
 EXPECTED_PROBES = {
     "quick": ["cut_frame_boundary", "cut_ubx_length", "cut_ubx_checksum", "cut_nmea_crlf", "cut_rtcm_crc", "cut_rtcm_hdr", "clean_wires", "dirty_wires", "validate_0", "big_frame_wires"],
     "thorough": ["cut_frame_boundary", "cut_ubx_length", "cut_ubx_checksum", "cut_nmea_crlf", "cut_rtcm_crc", "clean_wires", "dirty_wires", "validate_0", "sampled_long_wires"],
@@ -70,6 +72,7 @@ def generate(seed: int, tier: str = "quick") -> dict:
         frames = frames[:2]
         frames.insert(r_cfg.randrange(len(frames) + 1), {"kind": kind, "hex": data.hex(), "faults": [], "note": f"big {kind} frame {len(data)} bytes"})
         long_wire = True
+        cfg["bufsize_floor"] = 64  # a 12 KiB frame through a 1-byte receive buffer costs minutes, and shows nothing new
         pre.hit("big_frame_wires")
     # keep full enumeration affordable: drop trailing frames until the wire is <= 400 bytes
     if not long_wire:
@@ -85,6 +88,8 @@ def generate(seed: int, tier: str = "quick") -> dict:
         "host_delay": r_sch.choice((0.0, 0.001)),
     }
     cfg["bufsize"] = r_sch.choice(sched.BUFSIZES)
+    if cfg.pop("bufsize_floor", None):
+        cfg["bufsize"] = r_sch.choice((64, 1024, 4096))
     if wire_len <= FULL_ENUM_MAX:
         cuts = None  # all
     else:
@@ -198,6 +203,18 @@ def run_unit(unit) -> UnitResult:
     if scn["cuts"] is not None:
         c.hit("sampled_long_wires")
     cuts = scn["cuts"] if scn["cuts"] is not None else range(len(wire) + 1)
+    # a wire whose frames are expensive to parse (group counts of 65535) is cut at a thinned-out set of
+    # points: every structurally interesting offset plus every stride-th byte; the cost is measured in
+    # loop iterations of one uncut run, so the choice is deterministic
+    from sim.meter import StepMeter  # pylint: disable=import-outside-toplevel
+
+    with StepMeter(10**9) as meter:
+        run_reader(wire, cfg, {"kind": "file"})
+    if meter.used > HEAVY_WIRE:
+        stride = 1 + meter.used // HEAVY_WIRE
+        keep = set(sched.interesting_offsets(spans))
+        cuts = [k for k in cuts if k in keep or k % stride == 0 or k == len(wire)]
+        c.hit("heavy_wires_thinned")
     found = False
     for variant in VARIANTS:
         base = _base(scn, wire, variant)
